@@ -1060,6 +1060,7 @@ class WasmToIrCompiler:
     def gen_table_get(self, instruction):
         table_var = self.tables[instruction.args[0].index]
         index = self.pop_value()
+        self.gen_table_bounds_check(table_var, index)
         address = self.gen_table_addr(table_var, index)
         value = self.emit(ir.Load(address, "table_get", ir.ptr))
         self.push_value(value)
@@ -1068,6 +1069,7 @@ class WasmToIrCompiler:
         table_var = self.tables[instruction.args[0].index]
         value = self.pop_value()
         index = self.pop_value()
+        self.gen_table_bounds_check(table_var, index)
         address = self.gen_table_addr(table_var, index)
         self.emit(ir.Store(value, address))
 
@@ -1433,6 +1435,50 @@ class WasmToIrCompiler:
         offset = self.emit(ir.Cast(offset, "offset", ir.ptr))
         address = self.emit(ir.add(table_address, offset, "address", ir.ptr))
         return address
+
+    def gen_table_bounds_check(self, table_var, index: ir.Value):
+        """Trap when index (taken as unsigned) is not below the table size"""
+        # a table variable points to a structure with:
+        # - data pointer
+        # - size (i32)
+        table_meta_address = self.emit(
+            ir.Load(table_var, "table_meta_addr", ir.ptr)
+        )
+        ptr_size = self.emit(ir.Const(self.ptr_info.size, "ptr_size", ir.ptr))
+        size_address = self.emit(
+            ir.add(table_meta_address, ptr_size, "size_address", ir.ptr)
+        )
+        size = self.emit(ir.Load(size_address, "table_size", ir.u32))
+        index = self.emit(ir.Cast(index, "index", ir.u32))
+        oob_block = self.new_block()
+        ok_block = self.new_block()
+        self.emit(ir.CJump(index, "<", size, ok_block, oob_block))
+
+        self.builder.set_block(oob_block)
+        self._gen_trap("table_oob")
+
+        self.builder.set_block(ok_block)
+
+    def _gen_trap(self, name):
+        """Call the runtime function which raises the trap, and leave.
+
+        Leaving the function is needed, in case the runtime function returns.
+        """
+        rt_func_name = "wasm_rt_" + name
+        if rt_func_name in self._runtime_functions:
+            rt_func = self._runtime_functions[rt_func_name]
+        else:
+            rt_func = ir.ExternalProcedure(rt_func_name, [])
+            self._runtime_functions[rt_func_name] = rt_func
+            self.builder.module.add_external(rt_func)
+        self.emit(ir.ProcedureCall(rt_func, []))
+        if isinstance(self.builder.function, ir.Procedure):
+            self.emit(ir.Exit())
+        else:
+            v = self.emit(
+                ir.Const(0, "trapped", self.builder.function.return_ty)
+            )
+            self.emit(ir.Return(v))
 
     def gen_call_indirect_instruction(self, instruction):
         """Call another function by pointer!"""
